@@ -112,6 +112,30 @@ impl Property for C18 {
                 "os_entropy": false,
             });
         }
+        if rng.chance(1, 80) {
+            // array functions over aggregated arrays of some hundred elements (beyond any small-size fast path):
+            // their element order is part of the output
+            let n = rng.range(70, 600) as usize;
+            let lines: Vec<String> = (0..n).map(|i| format!("W g{} {} 0.{} t{} {} 0.25 c 1 0.75 d", i % 3, (i as u64 * 7919) % 1009, 1 + (i * 37) % 8, i % 11, i % 7)).collect();
+            let keys: Vec<[u8; 16]> = (0..4).map(|_| rng.key16()).collect();
+            return json!({
+                "prop": "C18",
+                "kind": "multi_file",
+                "defs": format!("{} {}", WIDE, JOINED),
+                "stmt": *rng.pick(&[
+                    "SELECT ARRAY_UNIQUE(ARRAY_AGG(c1)) AS u, COUNT(*) AS c FROM w",
+                    "SELECT c0, ARRAY_UNIQUE(ARRAY_AGG(c1)) AS u, ARRAY_LENGTH(ARRAY_AGG(c3)) AS l FROM w GROUP BY c0",
+                    "SELECT c4, ARRAY_UNIQUE(ARRAY_AGG(c3)) AS u, ARRAY_UNIQUE(ARRAY_AGG(c2)) AS r FROM w GROUP BY c4",
+                ]),
+                "lines": lines,
+                "joined": [],
+                "n_files": rng.range(1, 3),
+                "keys": keys_to_json(&keys),
+                "repeat": 1,
+                "format": "text",
+                "os_entropy": false,
+            });
+        }
         if rng.chance(if thorough { 4 } else { 1 }, 5000) {
             // huge joined file (beyond 8 MiB): partners of one key are spread over the whole file
             let keys: Vec<[u8; 16]> = (0..3).map(|_| rng.key16()).collect();
